@@ -48,6 +48,10 @@ package main
 //@   requires cmd.Stderr != nil && cmd.Stdout != nil
 //@   assigns outs
 //@   ensures [C12] forall w Iface :: w != cmd.Stderr && w != cmd.Stdout ==> outs[w] == old(outs)[w]
+//@   requires [C12] the-new-text-is-made-of-whole-lf-lines: noCR(string(modifiedContent)) && nlTerminated(string(modifiedContent))
+//@   at call github.com/pkg/diff.Text assert [C12] the-new-text-is-rendered-line-for-line: noCR(string(boxedSlice(arg3))) && nlTerminated(string(boxedSlice(arg3)))
+//@   at call github.com/pkg/diff.Text assert [C12] the-diff-shows-the-line-ends-of-the-text-on-disk: noCR(string(boxedSlice(arg2)))
+//@   at call github.com/pkg/diff.Text assert [C12] the-diff-shows-a-missing-final-newline-of-the-text-on-disk: nlTerminated(string(boxedSlice(arg2)))
 //@   at call github.com/pkg/diff.Text assert [C12] the-diff-leads-from-the-bytes-on-disk-to-the-bytes-the-other-modes-emit: arg0 == filename0 && arg1 == filename0 && boxedSlice(arg2) == originalContent0 && boxedSlice(arg3) == modifiedContent0 && arg4 == cmd.Stdout
 
 //@ func (r *patchRunner) Apply(filename, f) (fout, comments, matched)
